@@ -373,10 +373,24 @@ def do_taut(req):
 def do_resolve(req):
     """start_resolution_algorithm on a clause list"""
     B = Bridge()
-    t = Tautology()
-    out = {'out': 'ok', 'res': 'none', 'conc': {'t': 'ev', 'i': 0}}
+    calls, entry = [], []
+
+    class Rec(Tautology):          # records the pairs the saturation loop visits (subclass override, no repository hook)
+        def resolvable(self, c1, c2):
+            calls.append([sorted(c1), sorted(c2)])
+            return super().resolvable(c1, c2)
+
+        def resolution_algorithm(self, hint, l):
+            entry.append([sorted(c) for c in l])
+            r = super().resolution_algorithm(hint, l)
+            entry.append(bool(r))
+            return r
+    t = Rec()
+    out = {'out': 'ok', 'res': 'none', 'conc': {'t': 'ev', 'i': 0}, 'loop': None}
     try:
         r = t.start_resolution_algorithm([list(c) for c in req['clauses']])
+        if len(entry) == 2:
+            out['loop'] = {'clauses': entry[0], 'calls': calls, 'found': entry[1]}
         if r is not None:
             out['res'] = 'true' if r[0] else 'false'
             out['conc'] = B.to_json(r[1].conc)
